@@ -48,6 +48,11 @@ type StepObs struct {
 	Cmded    []int    `json:"cmded"`
 	Tasks    [][2]int `json:"tasks"`
 	ErrText  string   `json:"err_text,omitempty"` // not compared
+	// diagnosis only, not compared: how long the request and the settling of the role view took when
+	// that was long, and whether the expected view was never reached within the bound
+	Diag      string `json:"diag,omitempty"` // failed creation that was scripted to succeed: what the launch director saw
+	SlowMs    int  `json:"slow_ms,omitempty"`
+	Unsettled bool `json:"unsettled,omitempty"`
 }
 
 type job struct {
@@ -189,6 +194,9 @@ func runCaseOnce(w *c0203.World, idx int, try int, in Input) (obsOut []StepObs, 
 		dumpStacks(fmt.Sprintf("case %d: deployment verdict lost / core wedged", idx))
 		return nil, true, false
 	}
+	if (cr.Err != nil || cr.Hang) && deploymentScriptedToSucceed(in) {
+		first.Diag = fmt.Sprintf("accepts=%d %s", env.Accepts(), strings.Join(env.Trace(), "; "))
+	}
 	if cr.Err != nil && !cr.Hang && deploymentScriptedToSucceed(in) && strings.Contains(cr.Err.Error(), "workflow deployment timed out") &&
 		env.AllRunActive(in.Launch) {
 		accident = true
@@ -205,8 +213,12 @@ func runCaseOnce(w *c0203.World, idx int, try int, in Input) (obsOut []StepObs, 
 		for i := range view {
 			view[i] = [2]int{1, 3}
 		}
-		view = env.Settle(expectAfterCmd(view, "CONFIGURE", in.Cfg), settleFor)
+		want := expectAfterCmd(view, "CONFIGURE", in.Cfg)
+		env.AwaitReplies(settleFor) // the replies are applied after the request has returned, in any order
+		view = env.Settle(want, settleFor)
 		first.Tasks = view
+		first.Unsettled = !sameView(view, want)
+		first.SlowMs = slowMs(t0)
 	}
 	obs = append(obs, first)
 	if heavy {
@@ -230,6 +242,7 @@ func runCaseOnce(w *c0203.World, idx int, try int, in Input) (obsOut []StepObs, 
 				h = 140 * time.Second
 			}
 			before := c0203.EnvStateCode[env.State()]
+			t1 := time.Now()
 			cr := env.Control(op.Ev, h)
 			so.Hang = cr.Hang
 			so.Err = cr.Err != nil
@@ -243,8 +256,11 @@ func runCaseOnce(w *c0203.World, idx int, try int, in Input) (obsOut []StepObs, 
 			if srcOf[op.Ev] == before {
 				want = expectAfterCmd(view, op.Ev, op.Oc)
 			}
+			env.AwaitReplies(settleFor)
 			view = env.Settle(want, settleFor)
 			so.Tasks = view
+			so.Unsettled = !sameView(view, want)
+			so.SlowMs = slowMs(t1)
 		case "kill":
 			prev := env.State()
 			crit := op.I < len(in.Tasks) && in.Tasks[op.I].Crit
@@ -276,6 +292,25 @@ func runCaseOnce(w *c0203.World, idx int, try int, in Input) (obsOut []StepObs, 
 	last := obs[len(obs)-1]
 	env.Finish(!last.Hang)
 	return obs, false, false
+}
+
+func sameView(a, b [][2]int) bool {
+	if len(a) != len(b) {
+		return false
+	}
+	for i := range a {
+		if a[i] != b[i] {
+			return false
+		}
+	}
+	return true
+}
+
+func slowMs(since time.Time) int {
+	if d := time.Since(since); d > 500*time.Millisecond {
+		return int(d.Milliseconds())
+	}
+	return 0
 }
 
 var dumped bool
